@@ -53,7 +53,55 @@ func guardedFinite(chain []ssa.Value, b *ssa.BasicBlock, via *ssa.BasicBlock) bo
 		k, isConst := ir.ConstInt(call.Call.Args[1])
 		return isConst && k == 0
 	})
-	return notNaN && notInf
+	if notNaN && notInf {
+		return true
+	}
+	// a predicate helper (isFinite(v), !isInvalid(v)): the branch on its result establishes both tests inside it
+	for _, f := range facts {
+		call, ok := f.Bool.(*ssa.Call)
+		if !ok || f.Op != token.ILLEGAL {
+			continue
+		}
+		h := ir.Callee(call).Static
+		if h == nil || len(h.Blocks) == 0 || call.Call.IsInvoke() {
+			continue
+		}
+		var params []ssa.Value
+		for i, a := range call.Call.Args {
+			if i < len(h.Params) && inChain(a) {
+				params = append(params, h.Params[i])
+			}
+		}
+		if len(params) == 0 {
+			continue
+		}
+		isP := func(v ssa.Value) bool {
+			rv := ir.Resolve(v)
+			for _, p := range params {
+				if rv == p || v == p {
+					return true
+				}
+			}
+			return inChain(v)
+		}
+		hf := ir.HelperFacts(call, 0, f.Truth)
+		nn := ir.HasBool(hf, false, func(v ssa.Value) bool {
+			c2, ok := v.(*ssa.Call)
+			return ok && ir.CallName(c2) == "math.IsNaN" && isP(c2.Call.Args[0])
+		})
+		ni := ir.HasBool(hf, false, func(v ssa.Value) bool {
+			c2, ok := v.(*ssa.Call)
+			if !ok || ir.CallName(c2) != "math.IsInf" || !isP(c2.Call.Args[0]) {
+				return false
+			}
+			k, isConst := ir.ConstInt(c2.Call.Args[1])
+			return isConst && k == 0
+		})
+		if nn && ni {
+			return true
+		}
+	}
+	return false
 }
 
 // analyse returns, for fn, the tainted values with their derivation chains and origin.
